@@ -5,7 +5,7 @@ import json, os, re, subprocess, sys
 VERIF = os.path.dirname(os.path.dirname(os.path.abspath(__file__)))
 WT = '/tmp/matrix_wt'
 EXTRA = {'C20_1': ['C11'], 'C20_2': ['C15', 'C01'], 'C04_3': ['C12'], 'C03_1': ['C12'], 'C03_3': ['C10'], 'C01_3': ['C15'], 'C02_1': ['C15'], 'C02_3': ['C11', 'C20'], 'C10_3': ['C07'], 'C11_2': ['C14'], 'C13_2': ['C09'],
-         'C14_3': ['C11'], 'C12_1': ['C15', 'C16'], 'C06_3': ['C11'], 'C05_1': ['C12', 'C03'], 'C08_2': ['C10'], 'C07_2': ['C20'], 'C08_3': ['C20'], 'C20_3': ['C18']}
+         'C14_3': ['C11'], 'C12_1': ['C15', 'C16'], 'C06_3': ['C11'], 'C05_1': ['C12', 'C03'], 'C08_2': ['C10'], 'C07_2': ['C20'], 'C08_3': ['C20'], 'C20_3': ['C18'], 'C03_5': ['C16'], 'C02_4': ['C15'], 'C02_5': ['C01']}
 
 
 def sh(cmd, **kw):
@@ -13,7 +13,9 @@ def sh(cmd, **kw):
 
 
 def main():
-    only = sys.argv[1:]
+    only = [a for a in sys.argv[1:] if not a.startswith('--')]
+    all_on_miss = '--all-on-miss' in sys.argv
+    allprops = [c['property_id'] for c in json.load(open(os.path.join(VERIF, 'MANIFEST.json')))['checks']]
     if not os.path.isdir(WT):
         r = sh('git -C /repo worktree add -q --detach %s HEAD' % WT)
         if r.returncode:
@@ -36,6 +38,14 @@ def main():
             o = subprocess.run(['./check', p, '--tier', 'quick'], cwd=VERIF, env=env, stdout=subprocess.PIPE, stderr=subprocess.STDOUT, text=True)
             roles = re.findall(r'role=(\S+)', o.stdout)
             res[p] = dict(exit=o.returncode, roles=sorted(set(roles))[:6])
+        if all_on_miss and not any(x['exit'] == 1 for x in res.values()):
+            for p in allprops:
+                if p in res:
+                    continue
+                env = dict(os.environ, VERIF_REPO=WT)
+                o = subprocess.run(['./check', p, '--tier', 'quick'], cwd=VERIF, env=env, stdout=subprocess.PIPE, stderr=subprocess.STDOUT, text=True)
+                if o.returncode != 0:
+                    res[p] = dict(exit=o.returncode, roles=sorted(set(re.findall(r'role=(\S+)', o.stdout)))[:6])
         meta = json.load(open(os.path.join(d, 'meta.json')))
         meta['checks_run'] = res
         meta['detected_by'] = sorted(p for p, x in res.items() if x['exit'] == 1)
